@@ -147,7 +147,8 @@ def run(chk: common.Check):
         rule=("obligations = theorems of coq/props/C20.v about the generated rotate_vector_around_an_axis over R (all angles, all "
               "non-zero axes, all vectors; branch by branch incl. zero components). Evaluations: implementation vs closed-form Rodrigues on "
               "all axes over {0,-0,+-1,0.37,-2.5}^3 x angles x vectors + random triples (tiny/large scales); distinct = axis sign/zero pattern; "
-              "translator validated bit-exactly (IR) and in Coq PrimFloat for the transcendental-free functions"),
+              "translator validated bit-exactly (IR) and in Coq PrimFloat for the transcendental-free functions"
+              " Added in rounds 5-6: the zero vector and vectors of magnitude 1e-300 .. 1e300, arguments not modified by the call."),
         assumptions=["theorems are over the real numbers: IEEE rounding and libm error are outside them (the search compares at 1e-6 relative to |v|)",
                      "py2coq (tools/vlib/py2coq.py) reads the Python AST faithfully - validated by the bit-exact runs of this check"],
         trusted=["tools/vlib/py2coq.py translator", "stdlib real-number axioms listed above"])
